@@ -100,6 +100,8 @@ def materialise(w, gm):
         else:
             w.write(fx["p"], b"content of " + fx["p"].encode() + b"\n")
     text = "".join(concretise(l) + gm["eol"] for l in gm["lines"])
+    if gm.get("open") and text.endswith(gm["eol"]):
+        text = text[:-len(gm["eol"])]          # the final line is not terminated
     name = "gophermap" if gm["kind"] == "dir" else gm["sel"].rsplit("/", 1)[1]
     w.write(base + name, text)
 
@@ -277,11 +279,11 @@ def _init_worker():
 
 
 def case_key(gm):
-    return "%s %s eol=%s|%s" % (gm["kind"], gm["sel"], json.dumps(gm["eol"]), json.dumps(gm["lines"]))
+    return "%s %s eol=%s%s|%s" % (gm["kind"], gm["sel"], json.dumps(gm["eol"]), "(open)" if gm.get("open") else "", json.dumps(gm["lines"]))
 
 
 def _gm_for_trace(g):
-    return {"kind": g["kind"], "sel": g["sel"], "dir": g["dir"], "lines": list(g["lines"]), "eol": g["eol"],
+    return {"kind": g["kind"], "sel": g["sel"], "dir": g["dir"], "lines": list(g["lines"]), "eol": g["eol"], "open": bool(g.get("open", False)),
             "srv": dict(g["srv"]), "fixtures": [{"p": f["p"], "k": f["k"]} for f in g["fixtures"]]}
 
 
@@ -323,7 +325,7 @@ def validate(traces, timeout=3000):
 def selftest():
     """Binding demonstration: a recorded trace is accepted; corrupting one field of one protocol's view,
     dropping a row, or dropping a whole view makes TraceC09 reject it, naming the clause."""
-    gm = {"kind": "dir", "sel": "/d", "dir": "/d", "eol": "\n", "srv": dict(SERVER),
+    gm = {"kind": "dir", "sel": "/d", "dir": "/d", "eol": "\n", "open": False, "srv": dict(SERVER),
           "lines": ["hello world", "0Rel\tx", "1NoHost\t/abs\t\t7070", "hWeb\tURL:http://h.example/p", "0Thru\tx/extra",
                     "0Nul\tx{NUL}y"],
           "fixtures": [{"p": "/d/x", "k": "file"}, {"p": "/abs", "k": "dir"}]}
